@@ -43,7 +43,7 @@ Check(e) ==
 
 Init == sh \in 1..S /\ l = sh
 Next == /\ l <= Len(Trace) /\ l' = l + S /\ sh' = sh
-        /\ LET r == Check(Trace[l]) IN r = "ok" \/ PrintT(ToJson([k |-> "V", l |-> l, r |-> r]))
+        /\ LET r == Check(Trace[l]) IN IF r = "ok" THEN TRUE ELSE PrintT(ToJson([k |-> "V", l |-> l, r |-> r]))
 Spec == Init /\ [][Next]_vars
 Done == PrintT(ToJson([k |-> "DONE", distinct |-> TLCGet("distinct"), want |-> Len(Trace) + S]))
 =============================================================================
